@@ -64,6 +64,7 @@ type Machine struct {
 	ExitCode   *int
 	Ghost      map[string]value
 	Thorough   bool
+	MapNondet  bool
 	fresh      int
 	Approx     int // number of over-approximated operations on this path
 }
